@@ -573,18 +573,23 @@ def run_model_parallel(ctx, items, name, jobs=14):
     light = [l for l, h in items if not h]; heavy = [l for l, h in items if h]
     chunks = [[] for _ in range(max(1, min(jobs, len(light))))]
     for i, l in enumerate(light): chunks[i % len(chunks)].append(l)
-    work = [(fw.write_cases(ctx, "%s.h%d" % (name, i), [l]), ctx.scale(25, 90), l) for i, l in enumerate(heavy)]
+    work = [(fw.write_cases(ctx, "%s.h%d" % (name, i), [l]), ctx.scale(15, 90), l) for i, l in enumerate(heavy)]
     work += [(fw.write_cases(ctx, "%s.m%d" % (name, i), ch), 1500, None) for i, ch in enumerate(chunks) if ch]
     out = {}
+    import time as _t
+    slow = []
     def go(w):
         f, to, l = w
-        return fw.run_model(ctx, f, timeout=to), l
+        t0 = _t.time(); r = fw.run_model(ctx, f, timeout=to); dt = _t.time() - t0
+        if l is not None and dt > 4: slow.append("%.0fs %s" % (dt, " ".join(l.split()[1:3])))
+        return r, l
     with concurrent.futures.ThreadPoolExecutor(max_workers=jobs) as ex:
         for (rc, res, raw, err), l in ex.map(go, work):
             if rc == 124 and l is not None:
                 ctx.count("model_timeout_skipped"); out[l.split()[0]] = [("TIMEOUT", [])]; continue
             if rc != 0: ctx.signal("K", "modeldriver", "model driver exited with %s: %s" % (rc, (err or "")[-400:]))
             out.update(res)
+    if slow: ctx.notes.append("slow model cases: " + "; ".join(sorted(slow, reverse=True)[:8]))
     return out
 
 
